@@ -126,8 +126,8 @@ def cfg_case(draw):
             p['readonly'] = True
         if p['export'] is not True:
             p['export'] = True
-        if not p.get('readonly') and draw(st.integers(0, 11)) == 0:
-            p['needscfg'] = True
+        if not p.get('readonly') and draw(st.integers(0, 9)) == 0:
+            p['needscfg'] = draw(st.sampled_from([True, True, 'with-default']))
         if p.get('write') == 'altered':
             p['write'] = 'value'     # the stored default may be invalid for the overridden datatype
     cfg = {'description': 'configured module'}
